@@ -1,6 +1,7 @@
 package main
 
 import (
+	"sort"
 	"fmt"
 	"go/types"
 	"strings"
@@ -697,6 +698,9 @@ func (e *enc) invoke(x *ssa.Call) {
 		return
 	}
 	e.safety("nil", fmt.Sprintf("(not (= %s 0))", recv), x.Pos(), x.String())
+	if recvInRepo(c.Value.Type()) && e.dispatch(x, recv) {
+		return
+	}
 	// reflect.TypeOf(v).String(): the name of v's dynamic type
 	if tc, ok := c.Value.(*ssa.Call); ok && c.Method.Name() == "String" {
 		if cal := tc.Common().StaticCallee(); cal != nil && cal.String() == "reflect.TypeOf" {
@@ -754,4 +758,142 @@ func (e *enc) pureApp(callee *ssa.Function, args []Term) []Term {
 		}
 	}
 	return ts
+}
+
+// dispatch: a method call through an interface declared in the repository, resolved over the repository types that
+// implement it (closed world: only those types are ever stored in such an interface). Each implementation is inlined
+// under the condition that the receiver has that dynamic type; memory and results are merged.
+func (e *enc) dispatch(x *ssa.Call, recv Term) bool {
+	fr := e.fr
+	c := x.Common()
+	iface, ok := c.Value.Type().Underlying().(*types.Interface)
+	if !ok || fr.depth >= inlineMaxDepth {
+		return false
+	}
+	type impl struct {
+		ty types.Type
+		fn *ssa.Function
+	}
+	var impls []impl
+	var names []string
+	byName := map[string]impl{}
+	for path, p := range e.w.ByPath {
+		if !strings.HasPrefix(path, modPath) || strings.Contains(path, "/languages/") || p.Types == nil {
+			continue
+		}
+		sc := p.Types.Scope()
+		for _, n := range sc.Names() {
+			tn, ok := sc.Lookup(n).(*types.TypeName)
+			if !ok || tn.IsAlias() {
+				continue
+			}
+			if _, isIface := tn.Type().Underlying().(*types.Interface); isIface {
+				continue
+			}
+			for _, t := range []types.Type{tn.Type(), types.NewPointer(tn.Type())} {
+				if !types.Implements(t, iface) {
+					continue
+				}
+				sel := e.w.Prog.MethodSets.MethodSet(t).Lookup(c.Method.Pkg(), c.Method.Name())
+				if sel == nil {
+					continue
+				}
+				fn := e.w.Prog.MethodValue(sel)
+				if fn == nil || fn.Blocks == nil {
+					continue
+				}
+				k := t.String()
+				if _, dup := byName[k]; !dup {
+					byName[k] = impl{t, fn}
+					names = append(names, k)
+				}
+			}
+		}
+	}
+	sort.Strings(names)
+	for _, k := range names {
+		impls = append(impls, byName[k])
+	}
+	if len(impls) == 0 || len(impls) > 12 {
+		return false
+	}
+	for _, f := range e.stack {
+		for _, im := range impls {
+			if f == im.fn {
+				return false // recursion through the interface
+			}
+		}
+	}
+	e.assumps["closed world: an interface declared in the repository only ever holds values of the repository types that implement it"] = true
+	tag := e.uf("dyntag", []string{"Int"}, "Int")
+	var args []Term
+	for _, a := range c.Args {
+		args = append(args, e.value(a))
+	}
+	cur0, mem0, ptr0 := fr.cur, copyMem(e.mem), e.ptrIn
+	var ats []Term
+	var mems []map[string]Term
+	var vals [][]Term
+	var conds []Term
+	sig := c.Signature()
+	for _, im := range impls {
+		s := e.so.of(im.ty)
+		unbox := e.uf("unbox_"+clean(s), []string{"Int"}, s)
+		cond := fmt.Sprintf("(= (%s %s) %d)", tag, recv, e.typeTag(im.ty))
+		conds = append(conds, cond)
+		e.mem = copyMem(mem0)
+		e.ptrIn = nil
+		fr.cur = e.define("disp_"+clean(im.fn.Name()), "Bool", fmt.Sprintf("(and %s %s)", cur0, cond))
+		// the wrapper synthesised for promoted / value methods has the receiver as its first parameter
+		callee := im.fn
+		recvArg := fmt.Sprintf("(%s %s)", unbox, recv)
+		argVals := make([]ssa.Value, len(callee.Params))
+		for i := 1; i < len(argVals) && i-1 < len(c.Args); i++ {
+			argVals[i] = c.Args[i-1]
+		}
+		delete(fr.val, x)
+		delete(fr.tuples, x)
+		e.inline(x, callee, argVals, append([]Term{recvArg}, args...), nil)
+		ats = append(ats, fr.cur)
+		mems = append(mems, copyMem(e.mem))
+		switch sig.Results().Len() {
+		case 0:
+			vals = append(vals, nil)
+		case 1:
+			vals = append(vals, []Term{fr.val[x]})
+		default:
+			vals = append(vals, fr.tuples[x])
+		}
+	}
+	e.ptrIn = ptr0
+	for k := range e.ptrIn {
+		delete(e.ptrIn, k) // pointer knowledge is not merged across the implementations
+	}
+	e.mem = e.mergeMem(mems, ats)
+	fr.cur = cur0
+	e.assumeAt(mkOr(conds))
+	fr.cur = e.define("after_dispatch", "Bool", mkOr(ats))
+	n := sig.Results().Len()
+	var ts []Term
+	for j := 0; j < n; j++ {
+		var t Term
+		for i := len(vals) - 1; i >= 0; i-- {
+			if vals[i] == nil || j >= len(vals[i]) {
+				continue
+			}
+			if t == "" {
+				t = vals[i][j]
+			} else {
+				t = fmt.Sprintf("(ite %s %s %s)", ats[i], vals[i][j], t)
+			}
+		}
+		if t == "" {
+			t = e.fresh("dispres", e.so.of(sig.Results().At(j).Type()))
+		}
+		ts = append(ts, e.define("disp_res", e.so.of(sig.Results().At(j).Type()), t))
+	}
+	delete(fr.val, x)
+	delete(fr.tuples, x)
+	e.setResult(x, sig, ts)
+	return true
 }
